@@ -119,15 +119,20 @@ Rewrite(m, h) == /\ cur' = m /\ nAdv' = nAdv + 1 /\ hist' = Append(hist, h) /\ p
 ReMsg(jwt, ds, kb) == MkMsg(jwt, ds, kb, cur.tm)
 DropAt(s, i) == [j \in 1..(Len(s)-1) |-> IF j < i THEN s[j] ELSE s[j+1]]
 
+PoolDesc(e) == [x \in DOMAIN e \ {"d"} |-> e[x]]
+\* how the replay driver finds a presented disclosure: by what it is, not by its position
+Desc(d) == LET es == {e \in Pool : e.d.id = d.id} IN
+           IF es = {} THEN [k |-> "unknown"]
+           ELSE LET g == {e \in es : e.k = "gen"} IN PoolDesc(IF g # {} THEN CHOOSE e \in g : TRUE ELSE CHOOSE e \in es : TRUE)
 AdvAddDisc == Move("AddDisc") /\ Len(cur.discs) < MaxDiscs /\ \E e \in Pool :
-                 /\ Rewrite(ReMsg(cur.jwt, Append(cur.discs, e.d), cur.kb), [a |-> "AddDisc", e |-> [x \in DOMAIN e \ {"d"} |-> e[x]]])
+                 /\ Rewrite(ReMsg(cur.jwt, Append(cur.discs, e.d), cur.kb), [a |-> "AddDisc", e |-> PoolDesc(e)])
                  /\ UNCHANGED ledger
 AdvDropDisc == Move("DropDisc") /\ \E i \in DOMAIN cur.discs :
-                 Rewrite(ReMsg(cur.jwt, DropAt(cur.discs, i), cur.kb), [a |-> "DropDisc", i |-> i]) /\ UNCHANGED ledger
+                 Rewrite(ReMsg(cur.jwt, DropAt(cur.discs, i), cur.kb), [a |-> "DropDisc", d |-> Desc(cur.discs[i])]) /\ UNCHANGED ledger
 AdvDupDisc == Move("DupDisc") /\ Len(cur.discs) < MaxDiscs /\ \E i \in DOMAIN cur.discs :
-                 Rewrite(ReMsg(cur.jwt, Append(cur.discs, cur.discs[i]), cur.kb), [a |-> "DupDisc", i |-> i]) /\ UNCHANGED ledger
+                 Rewrite(ReMsg(cur.jwt, Append(cur.discs, cur.discs[i]), cur.kb), [a |-> "DupDisc", d |-> Desc(cur.discs[i])]) /\ UNCHANGED ledger
 AdvSwapDiscs == Move("SwapDiscs") /\ \E i \in 1..(Len(cur.discs) - 1) :
-                 Rewrite(ReMsg(cur.jwt, [cur.discs EXCEPT ![i] = cur.discs[i+1], ![i+1] = cur.discs[i]], cur.kb), [a |-> "SwapDiscs", i |-> i]) /\ UNCHANGED ledger
+                 Rewrite(ReMsg(cur.jwt, [cur.discs EXCEPT ![i] = cur.discs[i+1], ![i+1] = cur.discs[i]], cur.kb), [a |-> "SwapDiscs", d |-> Desc(cur.discs[i]), d2 |-> Desc(cur.discs[i+1])]) /\ UNCHANGED ledger
 \* key binding
 AdvMoveKB == Move("MoveKB") /\ other # NoMsg /\ other.kb # NoKB /\ other.kb # cur.kb
              /\ Rewrite(ReMsg(cur.jwt, cur.discs, other.kb), [a |-> "MoveKB"]) /\ UNCHANGED ledger
